@@ -2,7 +2,7 @@
 # usage: tools/seed_matrix.sh [seed ...]   - runs every seeded change (or the listed ones) against the quick check of its
 # property (plus the extra checks listed below), records detected/missed in seeded/RESULTS.tsv. /repo is restored after each.
 cd /verif || exit 2
-declare -A EXTRA=( [C03a]="C11" [C04a]="C05 C06" )
+declare -A EXTRA=( [C03a]="C11" [C04a]="C05 C06" [C03c]="C05" [C16d]="C01 C05" )
 seeds="$@"; [ -z "$seeds" ] && seeds=$(ls seeded | grep -E '^C[0-9]+[a-z]$')
 for s in $seeds; do
   p=${s:0:3}
